@@ -4,7 +4,8 @@
    statement holds for every compiler whose only channel between instances is the state. *)
 From Coq Require Import List NArith Bool Permutation.
 From RPFT Require Import Base.Sexp Base.PyStr Base.ODict Base.Result Gen.Tables Cell.Cell
-  Index.Args Index.ArgsFacts Index.Bulk Index.BulkFacts Index.BulkExamples Index.BulkHistory Index.BulkHistoryFacts.
+  Index.Args Index.ArgsFacts Index.Bulk Index.BulkFacts Index.BulkExamples Index.BulkHistory Index.BulkHistoryFacts
+  Index.Alias Index.AliasFacts.
 Import ListNotations.
 
 (* 1. bulk = concatenation of the singles in data order: replacing a bulk row, anywhere in
@@ -212,6 +213,53 @@ Print Assumptions C12_instance_alone.
 Example C12_history_nonvacuous : history_example.
 Proof. exact history_example_holds. Qed.
 Print Assumptions C12_history_nonvacuous.
+
+(* 7. (wave 4) instances that CHANGE their values in place — {{ pair.pop() }}, {{ items.append('Z') or '' }},
+   {% set _ = x.sort() %} ... — with the lists as OBJECTS on a heap (Index/Alias.v).  Under every policy that gives an
+   instance objects of its own (its context copied, a literal cell parsed into new lists every time) the instances of a
+   run, in one process, yield one by one what each yields ALONE in an empty process; the run ends at the first one
+   that fails.  For every list of operations, every process state. *)
+Theorem C12_mutating_instances_isolated :
+  forall (pol : policy), policy_fresh pol = true ->
+  forall (is : list minst) (st : pstate), run_all pol st is = cut (map run_alone is).
+Proof. exact run_all_isolated. Qed.
+Print Assumptions C12_mutating_instances_isolated.
+
+(* 7b. one instance, after whatever history of the process: what it yields alone; after one history what it yields
+   after another *)
+Theorem C12_mutating_instance_state_free :
+  forall (pol : policy) (st : pstate) (i : minst), policy_fresh pol = true -> snd (run_inst pol st i) = run_alone i.
+Proof. exact instance_state_free. Qed.
+Print Assumptions C12_mutating_instance_state_free.
+
+Theorem C12_mutating_instance_history_free :
+  forall (pol : policy) (st1 st2 : pstate) (i : minst),
+  policy_fresh pol = true -> snd (run_inst pol st1 i) = snd (run_inst pol st2 i).
+Proof. exact instance_history_free. Qed.
+Print Assumptions C12_mutating_instance_history_free.
+
+(* 7c. the policy the code has, measured on this run (Gen/Tables.v: instance_context_private, literal_lists_fresh),
+   is such a policy: the model of the code as it is isolates its instances *)
+Theorem C12_as_coded_instances_isolated :
+  forall (is : list minst) (st : pstate), run_all as_coded st is = cut (map run_alone is).
+Proof. exact as_coded_isolated. Qed.
+Print Assumptions C12_as_coded_instances_isolated.
+
+(* 7d. neither switch of the policy can be dropped: with the lists of a literal cell kept by cell text, and with the
+   registry's objects handed out uncopied, some run is NOT its instances alone *)
+Theorem C12_shared_literal_lists_leak :
+  exists is, run_all (mk_policy true false) ps_empty is <> cut (map run_alone is).
+Proof. exact sharing_literals_leaks. Qed.
+Print Assumptions C12_shared_literal_lists_leak.
+
+Theorem C12_shared_context_objects_leak :
+  exists is, run_all (mk_policy false true) ps_empty is <> cut (map run_alone is).
+Proof. exact sharing_context_leaks. Qed.
+Print Assumptions C12_shared_context_objects_leak.
+
+Example C12_mutation_nonvacuous : alias_example.
+Proof. exact alias_example_holds. Qed.
+Print Assumptions C12_mutation_nonvacuous.
 
 (* inserted blocks go through the same preparation (own data row, own arguments, empty
    new_name), and see nothing of the inserting flow's context *)
